@@ -69,6 +69,9 @@ Receive(st, w, sl, fk, fn) ==
 \* owner::tx_lock_outputs, owner::cancel_tx (cancel does not delete the context),
 \* post_tx, refresh, mining: nothing happens to secrets
 Unchanged(st) == [st |-> st, out |-> {}]
+\* finalize_tx starts with get_private_context: without a stored context of that slate id it
+\* returns Err before anything is signed (this is what makes a nonce single-use)
+Refused(st) == Unchanged(st)
 \* owner::finalize_tx / foreign::finalize_tx, Standard2 (a late-locked context is
 \* saved once more with its selected inputs before): complete_tx signs with the
 \* stored keys, the context is deleted, the slate carries both entries
@@ -117,5 +120,17 @@ FreshPart(seenN, seenX, key, p) ==
   /\ (p.n \in DOMAIN seenN => seenN[p.n] = key)
   /\ (p.x \in DOMAIN seenX => seenX[p.x] = key)
 FreshNonces(seenN, seenX, key, parts) == \A p \in parts : FreshPart(seenN, seenX, key, p)
+\* ContextConsumed: "never reused" needs "consumed" - after a successful finalize_tx the
+\* finalizer no longer holds a private context (secret nonce, secret excess) of that slate
+ContextConsumed(post, w, sl) == ~HasCtx(post, w, sl)
+\* NonceSignsOnce: a partial signature commits to the aggregate nonce, the aggregate excess and the
+\* kernel message; `sctx` maps a public nonce that has signed to the participant set {<<n, x>>} it
+\* signed for.  One nonce under two different participant sets = two partial signatures with one
+\* nonce over two challenges, which discloses the signer's secret excess.
+Pairs(P) == {<<p.n, p.x>> : p \in P}
+SignsOnce(sctx, parts, all) == \A p \in parts : (p.sig /\ p.n \in DOMAIN sctx) => sctx[p.n] = Pairs(all)
+SctxAfter(sctx, parts, all) ==
+  LET new == {p.n : p \in {q \in parts : q.sig}} IN
+  [a \in (DOMAIN sctx) \cup new |-> IF a \in DOMAIN sctx THEN sctx[a] ELSE Pairs(all)]
 SeenAfter(seen, key, atoms) == [a \in (DOMAIN seen) \cup atoms |-> IF a \in DOMAIN seen THEN seen[a] ELSE key]
 =============================================================================
